@@ -157,6 +157,10 @@ def config_record(base, lib, legacy, ctor="from_string"):
 
 
 RMC_CONSTS = {
+    # longer base graphs over one real and the virtual node: '.' chain bonds in front of ring openings, several ring
+    # markers on one node, virtual nodes closing rings (three libraries only)
+    "ringvirtual": dict(MaxLen=8, NodeToks="NodesAV", SymToks="SymDot", RingToks="Rings2", MultCounts="NoMult",
+                        MaxDepth=1, MaxOpen=2, EmitAll="FALSE", MaxNodes=4, LibSel="LibsRingVirtual"),
     "quick": dict(MaxLen=5, NodeToks="NodesABV", SymToks="SymDotEq", RingToks="Rings1", MultCounts="NoMult",
                   MaxDepth=1, MaxOpen=1, EmitAll="FALSE", MaxNodes=3, LibSel="LibsAll"),
     "thorough": dict(MaxLen=6, NodeToks="NodesABV", SymToks="SymDotEq", RingToks="Rings1", MultCounts="Mult2",
@@ -164,7 +168,17 @@ RMC_CONSTS = {
 }
 
 
-def enumerate_configs(check, tier):
+def enumerate_configs(check, tier, extra=True):
+    out = _enumerate_configs(check, tier)
+    if extra and tier in ("quick", "thorough"):
+        seen = {(render.render_graph_tokens(b), l["name"], g) for b, l, g in out}
+        for b, l, g in _enumerate_configs(check, "ringvirtual"):
+            if (render.render_graph_tokens(b), l["name"], g) not in seen:
+                out.append((b, l, g))
+    return out
+
+
+def _enumerate_configs(check, tier):
     consts = RMC_CONSTS[tier]
     d = mc.write_cfg("rmc", consts, ["REmit"])
     # ResolveMC uses its own Init/Next
@@ -380,8 +394,8 @@ def pmap(fn, items, chunksize=64):
         return pool.map(fn, items, chunksize=chunksize)
 
 
-def config_records(check, tier, with_twin=False):
-    cfgs = enumerate_configs(check, tier)
+def config_records(check, tier, with_twin=False, extra=False):
+    cfgs = enumerate_configs(check, tier, extra=extra)
     return pmap(_one_config, [(i, b, l, g, with_twin) for i, (b, l, g) in enumerate(cfgs)])
 
 
@@ -515,7 +529,7 @@ def run_c10(tier):
 def _config_check(pid, tier, rule, with_twin=False, extra_records=True, only=None, nontrivial=None):
     check = Check(pid, tier=tier)
     check.rule = rule
-    recs = config_records(check, tier, with_twin=with_twin)
+    recs = config_records(check, tier, with_twin=with_twin, extra=pid in ("C11", "C02"))
     check.exhaustive = True
     check.extra["enumerated_configs"] = len(recs)
     if extra_records:
@@ -628,7 +642,7 @@ def run_c12_structural(check, tier):
 
 
 def run_c20_resolver(check, tier):
-    cfgs = [c for c in enumerate_configs(check, tier) if any(t["k"] == "N" and t["v"] == "V" for t in c[0])]
+    cfgs = [c for c in enumerate_configs(check, tier, extra=False) if any(t["k"] == "N" and t["v"] == "V" for t in c[0])]
     recs = pmap(_one_config, [(i, b, l, g, False) for i, (b, l, g) in enumerate(cfgs)])
     verdicts = validate_with(check, recs)
     judge(check, "C20", recs, verdicts, only=lambda r, v: v.get("expected") != "ok",
